@@ -249,6 +249,21 @@ func genTcp(o *Out, r *Rng, n int, tier string) {
 			}
 		}
 		if r.Chance(8) {
+			// the same helper twice in a row (two messages, two chunk ids when acks are on)
+			tag := hx(genTag(r, "quick"))
+			h := []string{"SendCompressedFromBytes", "SendPackedFromBytes", "SendCompressed", "SendPacked", "SendMessage"}[r.Intn(5)]
+			for k := 0; k < 2+r.Intn(2); k++ {
+				switch h {
+				case "SendCompressedFromBytes", "SendPackedFromBytes":
+					args = append(args, fmt.Sprintf("HLP(%s;%s;%s)", h, tag, hx(r.Bytes(1+r.Intn(40)))))
+				case "SendMessage":
+					args = append(args, fmt.Sprintf("HLP(%s;%s;%s)", h, tag, tokVal(genSmallRec(r, 1, false))))
+				default:
+					args = append(args, fmt.Sprintf("HLP(%s;%s;L(E(%s;%s)))", h, tag, tokInstant(genGoTime(r)), tokVal(nMap(nStr([]byte("k")), nStr(r.Bytes(1+r.Intn(20)))))))
+				}
+			}
+		}
+		if r.Chance(8) {
 			// a packed helper call that fails on an unencodable record after a good entry, then a good one
 			tag := hx(genTag(r, "quick"))
 			good := func() string {
